@@ -1,5 +1,5 @@
 SPECIFICATION Spec
-CONSTANTS MaxPre = 1 MaxN = 3
+CONSTANTS MaxPre = 0 MaxN = 3
   PreAlphabet <- AlphaSmall
   Accs <- AccsSmall
   Posts <- PostsSmall
